@@ -780,8 +780,17 @@ def suite_corrupt(tier):
                         e2.append((l, None, p))
                 ext = e2
             picks += [(l, p) for l, _, p in ext]
+            if kind == "ascii":
+                # frames whose check value is 0x00 / 0xFF / 0x80 (a placeholder or default compared with a parsed field
+                # coincides with the true value once in 256): the value byte is chosen so that the LRC comes out so
+                for want in (0x00, 0xFF, 0x80):
+                    picks.append(("WriteSingleRegister-lrc%02x" % want, ("lrc", want)))
             for cname, the_pdu in picks:
                 uid = r.choice([1, 17, 247])
+                if isinstance(the_pdu, tuple) and the_pdu[0] == "lrc":
+                    body = bytes([6, 0, 0x10, 0])
+                    x = (-(uid + sum(body)) - the_pdu[1]) & 0xFF
+                    the_pdu = body + bytes([x])
                 tid = r.choice([1, 0x8001, 0x0102, 0xfffe])
                 f = (tid, 0, uid, the_pdu) if kind == "tcp" else (0, 0, uid, the_pdu)
                 frame = adu(kind, f)
